@@ -15,7 +15,7 @@
 From Coq Require Import List NArith ZArith Bool Lia.
 From NextestModel Require Import Base.Tac.
 From NextestModel Require gen.GenDecisions.
-From NextestModel Require Model.Result Model.Dispatcher Model.Junit Model.UnitTimers Model.FilterFull.
+From NextestModel Require Model.Result Model.Dispatcher Model.Junit Model.UnitTimers Model.Filter Model.FilterFull.
 Import ListNotations.
 Open Scope N_scope.
 
@@ -25,6 +25,7 @@ Module MD := NextestModel.Model.Dispatcher.
 Module MJ := NextestModel.Model.Junit.
 Module MU := NextestModel.Model.UnitTimers.
 Module MF := NextestModel.Model.FilterFull.
+Module MFl := NextestModel.Model.Filter.
 
 (* boolean comparisons in hypotheses -> propositions lia understands *)
 Ltac b2p :=
@@ -85,8 +86,9 @@ Ltac bridge_leaf :=
   cbn [List.length List.app] in *; b2p; subst;
   first [ solve [ctor_eq] | solve [exfalso; lia] | congruence | solve [exfalso; congruence] ].
 
+(* (bounded: a generated function that makes the case analysis explode is a failure, not a hang) *)
 Ltac bridge :=
-  intros; bridge_norm; repeat (bridge_case; cbv beta iota); bridge_leaf.
+  timeout 240 (intros; bridge_norm; repeat (bridge_case; cbv beta iota); bridge_leaf).
 
 (* == block conv_stats == *)
 (* RunStats: field for field, in declaration order *)
@@ -408,3 +410,80 @@ Proof. bridge. Qed.
 Lemma gen_is_match_is_model :
   forall m, G.FilterBinaryMatch_is_match m = MF.b_is_match (bmatch_to_model m).
 Proof. bridge. Qed.
+
+(* ---------------------------------------------------------------- exit status (cargo-nextest) *)
+(* == block exec_run_exit (needs conv_stats) == *)
+Definition policy_to_model (p : option G.NoTestsBehavior) : option MR.no_tests :=
+  match p with
+  | Some G.NoTestsBehavior_Pass => Some MR.NtPass
+  | Some G.NoTestsBehavior_Warn => Some MR.NtWarn
+  | Some G.NoTestsBehavior_Fail => Some MR.NtFail
+  | None => None
+  end.
+(* what main() does with the value of exec_run: Ok(code) -> exit(code); Err(e) -> exit(e.process_exit_code()) *)
+Definition process_exit (r : Z + G.ExpectedError) : Z :=
+  match r with inl c => c | inr e => G.ExpectedError_process_exit_code e end.
+Lemma gen_exec_run_exit_is_model :
+  forall s p,
+    process_exit (G.exec_run_exit s p) = MR.exit_code (MR.summarize_final (stats_to_model s)) (policy_to_model p).
+Proof. bridge. Qed.
+
+(* ---------------------------------------------------------------- test-level filter stages (Model/Filter.v) *)
+(* == block conv_filter == *)
+Definition run_ignored_to_model (r : G.RunIgnored) : MFl.run_ignored :=
+  match r with
+  | G.RunIgnored_Default => MFl.RIDefault
+  | G.RunIgnored_Only => MFl.RIOnly
+  | G.RunIgnored_All => MFl.RIAll
+  end.
+Definition mismatch_to_model (m : G.MismatchReason) : MFl.mismatch :=
+  match m with
+  | G.MismatchReason_Ignored => MFl.MIgnored
+  | G.MismatchReason_String => MFl.MString
+  | G.MismatchReason_Expression => MFl.MExpression
+  | G.MismatchReason_Partition => MFl.MPartition
+  | G.MismatchReason_DefaultFilter => MFl.MDefaultFilter
+  end.
+Definition fmatch_to_model (f : G.FilterMatch) : MFl.fmatch :=
+  match f with
+  | G.FilterMatch_Matches => MFl.Matches
+  | G.FilterMatch_Mismatch r => MFl.Mismatch (mismatch_to_model r)
+  end.
+Definition name_match_to_model (n : G.FilterNameMatch) : MFl.name_match :=
+  match n with
+  | G.FilterNameMatch_MatchEmptyPatterns => MFl.MatchEmpty
+  | G.FilterNameMatch_MatchWithPatterns => MFl.MatchWith
+  | G.FilterNameMatch_Mismatch r => MFl.NMis (mismatch_to_model r)
+  end.
+
+(* == block filter_ignored_mismatch (needs conv_filter) == *)
+Lemma gen_filter_ignored_mismatch_is_model :
+  forall f ignored,
+    option_map fmatch_to_model (G.TestFilter_filter_ignored_mismatch f ignored) =
+    option_map MFl.Mismatch (MFl.filter_ignored (run_ignored_to_model (G.TestFilter_builder_run_ignored f)) ignored).
+Proof. bridge. Qed.
+
+(* == block filter_match (needs conv_filter) == *)
+(* The stage order of TestFilter::filter_match: ignored, then (name, expression) with the name reason
+   first, then the partition, else Matches. The values of filter_name_match, filter_expression_match
+   and filter_partition_mismatch are inputs of the generated function; [part_input] is what the
+   partition stage returns for the model's partitioner state (it is consulted only when every
+   earlier stage accepts, which is also when the model advances the counter). *)
+Definition part_input (pb : option MFl.pbuilder) (cur : N) (name : list N) : option G.FilterMatch :=
+  match pb with
+  | None => None
+  | Some b => if fst (MFl.part_match b cur name) then None
+              else Some (G.FilterMatch_Mismatch G.MismatchReason_Partition)
+  end.
+Lemma gen_filter_match_is_model :
+  forall f bound ignored nm em pb cur name,
+    fmatch_to_model (G.TestFilter_filter_match f bound ignored nm em (part_input pb cur name)) =
+    fst (MFl.filter_match
+           (match MFl.filter_ignored (run_ignored_to_model (G.TestFilter_builder_run_ignored f)) ignored with
+            | Some r => Some r
+            | None => MFl.combine_name_expr (name_match_to_model nm) (name_match_to_model em)
+            end) pb cur name).
+Proof.
+  intros. unfold part_input, MFl.filter_match.
+  destruct pb as [b|]; [destruct (MFl.part_match b cur name) as [ok cur'] |]; bridge.
+Qed.
